@@ -68,9 +68,9 @@ func sumStacked(k ammkeeper.Keeper, ctx sdk.Context, poolId uint64) sdkmath.Lega
 }
 
 type world struct {
-	env                  *wire.Env
-	aAtom, aUsdc         sdkmath.Int
-	bAtom, bUsdc         sdkmath.Int
+	env          *wire.Env
+	aAtom, aUsdc sdkmath.Int
+	bAtom, bUsdc sdkmath.Int
 }
 
 func setup() *world {
@@ -111,6 +111,7 @@ func setup() *world {
 
 // Two queued exact-in requests in opposite directions on one pool (the reverse-request
 // branch with two live cache contexts), then EndBlocker.
+//
 //vrf:summary (*github.com/elys-network/elys/x/amm/types.Pool).SwapOutAmtGivenIn => sumSwapOut
 //vrf:summary (github.com/elys-network/elys/x/tier/keeper.Keeper).GetMembershipTier => sumTier
 //vrf:summary (github.com/elys-network/elys/x/amm/keeper.Keeper).GetStackedSlippage => sumStacked
@@ -161,6 +162,7 @@ func H_EndBlocker_TwoOpposite_ExactIn() {
 }
 
 // One queued exact-out request: debited at most the maximum, credited exactly the output.
+//
 //vrf:summary (*github.com/elys-network/elys/x/amm/types.Pool).SwapInAmtGivenOut => sumSwapIn
 //vrf:summary (github.com/elys-network/elys/x/tier/keeper.Keeper).GetMembershipTier => sumTier
 //vrf:cover applied not-applied
@@ -195,6 +197,7 @@ func H_EndBlocker_One_ExactOut() {
 
 // Enqueue side: the message handler's dry run happens on a cache context and must leave
 // balances and pools untouched; the request is stored under a fresh index.
+//
 //vrf:summary (*github.com/elys-network/elys/x/amm/types.Pool).SwapOutAmtGivenIn => sumSwapOut
 //vrf:summary (github.com/elys-network/elys/x/tier/keeper.Keeper).GetMembershipTier => sumTier
 //vrf:cover accepted rejected
@@ -226,4 +229,66 @@ func H_Enqueue_ExactIn() {
 	}
 	vrf.Cover("accepted")
 	vrf.Assert(n == 2, "C04: accepted request queued under a fresh index (older request kept)")
+}
+
+// contract of Pool.SwapOutAmtGivenIn for an oracle pool: any positive output, any oracle output >= 0, any
+// weight-balance bonus in [-1, 1] (the pricing returns all three to the keeper)
+func sumSwapOutOracle(p *ammtypes.Pool, ctx sdk.Context, o ammtypes.OracleKeeper, snap *ammtypes.Pool, tokensIn sdk.Coins, outDenom string, fee sdkmath.LegacyDec, acc ammtypes.AccountedPoolKeeper, f sdkmath.LegacyDec, params ammtypes.Params) (sdk.Coin, sdkmath.LegacyDec, sdkmath.LegacyDec, sdkmath.LegacyDec, sdkmath.LegacyDec, error) {
+	z := sdkmath.LegacyZeroDec()
+	nPrice++
+	tag := string(rune('0' + nPrice))
+	if vrf.Bool("priceFails" + tag) {
+		return sdk.Coin{}, z, z, z, z, ammtypes.ErrAmountTooLow
+	}
+	out := vrf.Int("priceOut" + tag)
+	vrf.Assume(out.IsPositive())
+	bonus, oracleOut := vrf.Dec("bonus"+tag), vrf.Dec("oracleOut"+tag)
+	vrf.Assume(bonus.GTE(sdkmath.LegacyNewDec(-1)))
+	vrf.Assume(bonus.LTE(sdkmath.LegacyOneDec()))
+	vrf.Assume(!oracleOut.IsNegative())
+	return sdk.Coin{Denom: outDenom, Amount: out}, z, z, bonus, oracleOut, nil
+}
+
+// One queued exact-in request on an oracle pool whose pricing reports a weight-balance bonus; the rebalance treasury
+// holds an arbitrary amount of the out token (possibly less than the bonus, which is then capped).
+//
+//vrf:summary (*github.com/elys-network/elys/x/amm/types.Pool).SwapOutAmtGivenIn => sumSwapOutOracle
+//vrf:summary (github.com/elys-network/elys/x/tier/keeper.Keeper).GetMembershipTier => sumTier
+//vrf:summary (github.com/elys-network/elys/x/amm/keeper.Keeper).GetStackedSlippage => sumStacked
+//vrf:cover applied not-applied
+//vrf:bound 1 queued exact-in request on an oracle pool, 1-hop route, separate recipient; output, oracle output, bonus in [-1,1] and treasury balance symbolic
+//vrf:max-steps 60000000
+func H_EndBlocker_One_ExactIn_OracleBonus() {
+	w := setup()
+	env, ctx := w.env, w.env.Ctx
+	p, _ := env.Amm.GetPool(ctx, 1)
+	p.PoolParams.UseOracle = true
+	for i := range p.PoolAssets {
+		p.PoolAssets[i].ExternalLiquidityRatio = sdkmath.LegacyOneDec()
+	}
+	env.Amm.SetPool(ctx, p)
+	tre := vrf.Int("treasuryUsdc")
+	vrf.Assume(!tre.IsNegative())
+	env.W.SetBal(treasury, usdc, tre)
+	in1, min1 := vrf.Int("in1"), vrf.Int("min1")
+	vrf.Assume(in1.IsPositive())
+	vrf.Assume(!min1.IsNegative())
+	m1 := &ammtypes.MsgSwapExactAmountIn{Sender: alice.String(), Recipient: bob.String(), Routes: []ammtypes.SwapAmountInRoute{{PoolId: 1, TokenOutDenom: usdc}}, TokenIn: sdk.Coin{Denom: atom, Amount: in1}, TokenOutMinAmount: min1}
+	env.Amm.SetSwapExactAmountInRequests(ctx, m1, 1)
+	env.Amm.SetLastSwapRequestIndex(ctx, 1)
+
+	env.Amm.EndBlocker(ctx)
+
+	vrf.Assert(len(env.Amm.GetAllSwapExactAmountInRequests(ctx)) == 0, "C04: no request lingers after EndBlocker")
+	spent := w.aAtom.Sub(env.W.BalOf(alice, atom))
+	got := env.W.BalOf(bob, usdc).Sub(w.bUsdc)
+	vrf.Assert(spent.IsZero() || spent.Equal(in1), "C04: sender debited exactly TokenIn or not at all")
+	if spent.IsZero() {
+		vrf.Cover("not-applied")
+		vrf.Assert(got.IsZero(), "C04: unapplied request credits nothing")
+	} else {
+		vrf.Cover("applied")
+		vrf.Assert(got.GTE(min1), "C04: recipient credited at least TokenOutMin (oracle pool, bonus capped by the treasury)")
+	}
+	vrf.Assert(env.W.BalOf(alice, usdc).Equal(w.aUsdc), "C04: sender's other balance untouched")
 }
